@@ -22,7 +22,7 @@ package limit
 
 // C18: admission under a per-name limit.
 //@ func (*Bucket[V]).Upsert
-//@   props C18 C05 C13
+//@   props C18 C05 C13 C14
 //@   ensures [monitor-lock-released] count("Mutex).Lock") == count("Mutex).Unlock") && count("Mutex).Lock") <= 1
 //@   requires b != nil && bucketInv(b)
 //@   ensures [inv] bucketInv(b)
